@@ -6,7 +6,7 @@ import itertools
 import typing as T
 
 from ..core import Undecided, AnchorMissing, Module, norm, short, attr_chain, call_name, call_method, walk_no_nested, chains_in, \
-    decorator_names, names_in
+    decorator_names, names_in, kwarg
 from ..report import Rule, RuleCtx
 from ..cfg import CFG
 from ..paths import enumerate_paths
@@ -35,7 +35,7 @@ EXPLANATION = (
     'member with the documented grouping, the counters added by total_failure_count are exactly those fed by the members of the '
     'folded is_bad set, doit returns non-zero iff total_failure_count() > 0, the label->counter table of summary agrees and every '
     'positive counter is printed.  R5: test_slice returns (int(part 0), int(part 1)) under the documented guards and get_tests '
-    'selects tests[SLICE-1::NUM_SLICES].  R6: get_tests builds the selection by filtering one source at a time (no concatenation), and in the selection generator (tests_from_args) no path leads from a `yield <candidate>` to another one without advancing the single loop over the candidates.  NOT decided: asyncio interleavings beyond this await protocol; that timeouts kill '
+    'selects tests[SLICE-1::NUM_SLICES].  The exit status handed from doit()/run()/run_with_args() to sys.exit is drawn from constants in 0..255, never a count.  R7: in an async function that repeats asyncio.wait/wait_for in a loop with a caller-supplied timeout variable (complete_all), that variable is re-assigned inside the loop from a clock-reading expression (necessary for the total wait to stay within the budget; the arithmetic itself is not decided).  R6: get_tests builds the selection by filtering one source at a time (no concatenation), and in the selection generator (tests_from_args) no path leads from a `yield <candidate>` to another one without advancing the single loop over the candidates.  NOT decided: asyncio interleavings beyond this await protocol; that timeouts kill '
     'process groups; --maxfail timing; the composed end-to-end value of complete() for a concrete run (only the per-method tables '
     'and their chaining); the rendered text of summary(); the partition property of --slice as such (only the offset/stride roles).')
 ASSUMPTIONS = [
@@ -335,6 +335,9 @@ def _single_defs(fn: T.Any, calls: T.Iterable[str] = ()) -> T.Dict[str, ast.AST]
                     return False
         return True
     cands = {k: v for k, v in cands.items() if stores.get(k) == 1 and k not in params and pure(v)}
+    # names bound exactly once by `with ... as x` are stable handles: reading them does not block propagation
+    bound_once = {i.optional_vars.id for n in walk_no_nested(fn) if isinstance(n, (ast.With, ast.AsyncWith)) for i in n.items
+                  if isinstance(i.optional_vars, ast.Name) and stores.get(i.optional_vars.id) == 1}
     done: T.Dict[str, ast.AST] = {}
     changed = True
     while changed:
@@ -342,7 +345,7 @@ def _single_defs(fn: T.Any, calls: T.Iterable[str] = ()) -> T.Dict[str, ast.AST]
         for k, v in cands.items():
             if k in done:
                 continue
-            reads = {x for x in names_in(v) if x in stores}
+            reads = {x for x in names_in(v) if x in stores and x not in bound_once}
             if reads <= set(done):
                 done[k] = tables._Subst(done).visit(tables._copy(v))
                 changed = True
@@ -1256,13 +1259,70 @@ def _sum_terms(e: ast.AST) -> T.Optional[T.List[str]]:
     return None
 
 
-def _truth_condition(e: ast.AST) -> T.Tuple[ast.AST, bool]:
-    """(c, polarity): the returned value `e` is non-zero iff c has truth value `polarity`."""
-    if isinstance(e, ast.IfExp) and isinstance(e.body, ast.Constant) and isinstance(e.orelse, ast.Constant) and bool(e.body.value) != bool(e.orelse.value):
-        return e.test, bool(e.body.value)
-    if isinstance(e, ast.Call) and isinstance(e.func, ast.Name) and e.func.id in ('int', 'bool') and len(e.args) == 1 and not e.keywords:
-        return _truth_condition(e.args[0])
-    return e, True
+def _is_boolean(e: ast.AST) -> bool:
+    if isinstance(e, ast.Compare):
+        return True
+    if isinstance(e, ast.UnaryOp) and isinstance(e.op, ast.Not):
+        return True
+    if isinstance(e, ast.BoolOp):
+        return all(_is_boolean(v) for v in e.values)
+    if isinstance(e, ast.Constant) and isinstance(e.value, bool):
+        return True
+    if isinstance(e, ast.Call) and isinstance(e.func, ast.Name) and e.func.id in ('bool', 'any', 'all', 'isinstance') and not e.keywords:
+        return True
+    return False
+
+
+def _status_values(e: ast.AST) -> T.Optional[T.Tuple[T.Set[int], T.Optional[ast.AST], bool]]:
+    """An exit-status expression drawn from a finite set of small constants: (values, c, polarity) with "non-zero iff c has
+    truth value polarity" (c None: the value is constant); None when the value is not bounded by construction."""
+    if isinstance(e, ast.Constant) and isinstance(e.value, (bool, int)) and e.value is not None:
+        return {int(e.value)}, None, True
+    if isinstance(e, ast.IfExp):
+        a, b = _status_values(e.body), _status_values(e.orelse)
+        if a is None or b is None or a[1] is not None or b[1] is not None:
+            return None
+        ta, tb = all(a[0]), all(b[0])
+        if ta == tb or any(a[0]) != ta or any(b[0]) != tb:
+            return None
+        return a[0] | b[0], e.test, ta
+    if isinstance(e, ast.Call) and isinstance(e.func, ast.Name) and e.func.id in ('int', 'bool') and len(e.args) == 1 and not e.keywords and _is_boolean(e.args[0]):
+        return {0, 1}, e.args[0], True
+    if _is_boolean(e):
+        return {0, 1}, e, True
+    if isinstance(e, ast.Call) and isinstance(e.func, ast.Name) and e.func.id == 'min' and len(e.args) == 2 and not e.keywords:
+        consts = [a for a in e.args if isinstance(a, ast.Constant) and isinstance(a.value, int) and not isinstance(a.value, bool)]
+        others = [a for a in e.args if a not in consts]
+        if len(consts) == 1 and len(others) == 1 and 0 < consts[0].value <= 255:
+            return set(range(0, consts[0].value + 1)), others[0], True
+    return None
+
+
+def _function_status(ctx: RuleCtx, mod: Module, q: str, fn: T.Any, depth: int = 0) -> T.List[T.Tuple[ast.Return, str]]:
+    """Classify every `return` of an entry function on the way to sys.exit: 'const' (bounded constants), 'doit', or 'unbounded:<why>'."""
+    out: T.List[T.Tuple[ast.Return, str]] = []
+    for r in walk_no_nested(fn):
+        if not isinstance(r, ast.Return):
+            continue
+        if r.value is None:
+            out.append((r, 'const'))
+            continue
+        v = _inline_locals(fn, r.value, calls={'doit', 'run', 'list_tests', 'total_failure_count'})
+        sv = _status_values(v)
+        if sv is not None:
+            out.append((r, 'const' if all(0 <= x <= 255 for x in sv[0]) else f'unbounded:constant {sorted(sv[0])} outside 0..255'))
+        elif isinstance(v, ast.Call) and call_method(v) == 'doit' and isinstance(v.func, ast.Attribute):
+            out.append((r, 'doit'))
+        elif isinstance(v, ast.Call) and isinstance(v.func, ast.Name) and mod.has_func(v.func.id) and depth < 2:
+            sub = _function_status(ctx, mod, v.func.id, mod.func(v.func.id), depth + 1)
+            worst = [k for _, k in sub if k.startswith('unbounded')]
+            out.append((r, worst[0] if worst else ('doit' if any(k == 'doit' for _, k in sub) else 'const')))
+        elif any(isinstance(n, ast.Call) and call_method(n) in ('total_failure_count', 'len') for n in ast.walk(v)) or \
+                any((attr_chain(n) or '').endswith('_count') for n in ast.walk(v)):
+            out.append((r, f'unbounded:a count ({short(v, 60)})'))
+        else:
+            raise Undecided(f'{q}: unknown exit status expression {short(r.value)}')
+    return out
 
 
 def r4(ctx: RuleCtx) -> None:
@@ -1387,9 +1447,22 @@ def r4(ctx: RuleCtx) -> None:
         if rv is None:
             ctx.violation(mod, dq, rn.ast, 'doit returns None after running the tests: the exit status does not reflect failures', rn.ast)
             continue
-        cond, pol = _truth_condition(_inline_locals(doit, rv, calls={'total_failure_count'}))
-        a, v = tables.canon(cond, pol)
+        rvi = _inline_locals(doit, rv, calls={'total_failure_count'})
         call = 'self.total_failure_count()'
+        sv = _status_values(rvi)
+        if sv is None:
+            is_count = call in norm(rvi) or any((attr_chain(n) or '').endswith('_count') for n in ast.walk(rvi)) or any(isinstance(n, ast.Call) and call_name(n) == 'len' for n in ast.walk(rvi))
+            if not is_count:
+                raise Undecided(f'{dq}: unknown exit status expression {short(rv)}')
+            ctx.violation(mod, dq, rn.ast, f'doit returns `{short(rvi)}`, a count, as the exit status: the process status keeps only 8 bits, so a multiple of 256 '
+                          'failures exits 0; the status must be drawn from small constants (1 if total_failure_count() > 0 else 0)', rn.ast)
+            continue
+        vals, cond, pol = sv
+        ctx.require(all(0 <= x <= 255 for x in vals) and cond is not None, f'doit: `{short(rn.ast)}` yields one of the constants {sorted(vals)[:4]}{"..." if len(vals) > 4 else ""}', mod, dq,
+                    'exit status drawn from small constants', f'doit returns a status from {sorted(vals)[:6]} ' + ('regardless of the failures' if cond is None else 'outside 0..255'), rn.ast)
+        if cond is None:
+            continue
+        a, v = tables.canon(cond, pol)
         good = (a == Atom('cmp', ('lt', '0', call)) and v) or (a == Atom('cmp', ('eq', call, '0')) and not v) or (a == Atom('truth', (call,)) and v) \
             or (a == Atom('cmp', ('lt', call, '1')) and not v)
         subject_known = call in repr(a) or any(ch.startswith('self.') for ch in chains_in(cond))
@@ -1397,6 +1470,12 @@ def r4(ctx: RuleCtx) -> None:
             raise Undecided(f'{dq}: unknown exit status expression {short(rv)}')
         ctx.require(good, f'doit: `{short(rn.ast)}` is non-zero iff total_failure_count() > 0', mod, dq, rn.ast,
                     f'doit returns non-zero iff [{"" if v else "not "}{a!r}]; required: iff total_failure_count() > 0', rn.ast)
+    # the way to sys.exit: run() / run_with_args() hand on doit() or small constants only
+    for q in ('run', 'run_with_args'):
+        sts = _function_status(ctx, mod, q, mod.func(q))
+        badr = [(r, k) for r, k in sts if k.startswith('unbounded')]
+        ctx.require(not badr, f'{q}(): {len(sts)} return(s) hand on doit() or constants in 0..255', mod, q, f'exit status values of {q}',
+                    f'{q}() returns {badr[0][1][10:] if badr else ""} as the process exit status (truncated to 8 bits by the OS)', badr[0][0] if badr else None)
     runf = mod.func('run')
     fl = Flow(runf)
     rr = [r for r in ast.walk(runf) if isinstance(r, ast.Return) and r.value is not None and any(o.startswith('call:') and o.endswith('.doit') for o in fl.origins(r.value))]
@@ -1630,6 +1709,53 @@ def r6(ctx: RuleCtx) -> None:
                                 f'(e.g. the inner loop is not left): a test matching several patterns is selected, run and counted several times', y)
 
 
+# ---------------------------------------------------------------------------
+# R7: a timeout budget that is re-used in a loop is re-derived from the clock
+# ---------------------------------------------------------------------------
+
+CLOCKS = ('time', 'monotonic', 'perf_counter')
+
+
+def r7(ctx: RuleCtx) -> None:
+    mod = ctx.repo.module(MTEST)
+    n = 0
+    for q, fn in mod.funcs().items():
+        if not isinstance(fn, ast.AsyncFunctionDef):
+            continue
+        waits = [c for c in walk_no_nested(fn) if isinstance(c, ast.Call) and call_name(c) in ('asyncio.wait', 'asyncio.wait_for')]
+        if not waits:
+            continue
+        cfg = CFG(fn)
+        fl = Flow(fn, nested=False)
+        for c in waits:
+            t = kwarg(c, 'timeout')
+            if t is None and call_name(c) == 'asyncio.wait_for' and len(c.args) > 1:
+                t = c.args[1]
+            if t is None or (isinstance(t, ast.Constant)):
+                continue
+            nodes = cfg.node_containing(c)
+            if len(nodes) != 1 or not cfg.can_reach(nodes[0], nodes[0]):
+                continue   # not re-issued in a loop
+            if not any(o.startswith('param:') for o in fl.origins(t)):
+                continue   # not a caller-supplied budget
+            n += 1
+            if not isinstance(t, ast.Name):
+                raise Undecided(f'{q}: the timeout of {short(c, 60)} is not a plain variable')
+            wn = nodes[0]
+            fresh = []
+            for w in cfg.nodes:
+                if w.kind == 'stmt' and isinstance(w.ast, (ast.Assign, ast.AugAssign, ast.AnnAssign)) and cfg.can_reach(wn, w) and cfg.can_reach(w, wn):
+                    tg = w.ast.targets if isinstance(w.ast, ast.Assign) else [w.ast.target]
+                    if any(isinstance(x, ast.Name) and x.id == t.id for x in tg) and w.ast.value is not None \
+                            and any(o.startswith('call:') and o.split('.')[-1] in CLOCKS for o in fl.origins(w.ast.value)):
+                        fresh.append(w)
+            ctx.require(bool(fresh), f'{q}: the budget `{t.id}` of the repeated {call_name(c)} is re-derived from the clock inside the loop', mod, q,
+                        f'stale timeout {t.id} in a repeated wait',
+                        f'{short(c, 70)} is repeated in a loop with the caller\'s budget `{t.id}`, which is never recomputed from the clock inside the loop: every '
+                        'early wake-up grants the full timeout again, so a test can run (much) longer than its timeout before it is killed', c)
+    ctx.floor('timed waits with a caller budget repeated in a loop', n, 1)
+
+
 RULES = [
     Rule('C12.R1', 'serial isolation: barriers around a non-parallel test, one scheduling per iteration, final barrier', r1),
     Rule('C12.R2', 'job bound: run() under the num_processes semaphore, cancellation flag, is_parallel implication', r2),
@@ -1638,5 +1764,6 @@ RULES = [
     Rule('C12.R3c', 'tests serialised by descending priority; scheduling fields in their slots', r3c),
     Rule('C12.R4', 'tallies, total_failure_count, exit status and summary agree', r4),
     Rule('C12.R5', '--slice i/n: parser roles and tests[SLICE-1::NUM_SLICES]', r5),
+    Rule('C12.R7', 'a timeout budget re-used in a loop is recomputed from the clock (complete_all)', r7),
     Rule('C12.R6', 'at-most-once selection: a candidate test is yielded / listed once', r6),
 ]
